@@ -1034,6 +1034,15 @@ func strEqConst(s VStr, lit string) string {
 }
 
 func (c *FnCtx) strEq(a, b VStr) string {
+	// two whole literals: decided here
+	if la, ok := c.eng.litOf[a.Arr]; ok && a.Off == "0" && a.Len == fmt.Sprint(len(la)) {
+		if lb, ok := c.eng.litOf[b.Arr]; ok && b.Off == "0" && b.Len == fmt.Sprint(len(lb)) {
+			if la == lb {
+				return "true"
+			}
+			return "false"
+		}
+	}
 	if lit, ok := c.eng.litOf[a.Arr]; ok && a.Off == "0" {
 		return strEqConst(b, lit)
 	}
